@@ -36,7 +36,7 @@ type World struct {
 	Probe func(label string, w http.ResponseWriter, r *http.Request) (int, error)
 	// ProbeNext, when set, is used instead of Probe and also gets the next handler.
 	ProbeNext func(label string, next httpserver.Handler, w http.ResponseWriter, r *http.Request) (int, error)
-	TmpDir string
+	TmpDir    string
 	// OnWrap is called when a listener is handed to the simnet middleware.
 	OnWrap func(tag string)
 }
